@@ -30,12 +30,22 @@ import (
 
 type C18Name struct {
 	Name []byte `json:"name"`
+	// Between > 0: the name is looked up, then Between other pairwise distinct names, then the name again (whatever
+	// the function remembers between calls - a cache, a pool - the answer depends on the name alone)
+	Between int    `json:"between,omitempty"`
+	Salt    uint32 `json:"salt,omitempty"`
 }
 
 var c18Name = pbt.Register(pbt.Prop[C18Name]{
 	Name: "C18Name",
 	Gen: func(t *rapid.T) C18Name {
-		switch rapid.IntRange(0, 5).Draw(t, "cls") {
+		switch rapid.IntRange(0, 6).Draw(t, "cls") {
+		case 6:
+			if rapid.IntRange(0, 9).Draw(t, "history") > 0 {
+				return C18Name{Name: []byte(rapid.StringMatching(`[A-Za-z0-9_]{1,16}`).Draw(t, "name"))}
+			}
+			return C18Name{Name: []byte(rapid.StringMatching(`[A-Za-z0-9_]{1,16}`).Draw(t, "name")), Salt: rapid.Uint32().Draw(t, "salt"),
+				Between: rapid.SampledFrom([]int{1, 2, 15, 16, 17, 63, 64, 65, 255, 256, 257, 1023, 1024, 1025, 4095, 4096, 4097, 8192, 20000, 70000}).Draw(t, "between")}
 		case 0:
 			return C18Name{Name: []byte(rapid.SampledFrom([]string{"", "Notch", "jeb_", "Tnze", "a", "é", "プレイヤー", "with space"}).Draw(t, "name"))}
 		case 1:
@@ -56,6 +66,22 @@ var c18Name = pbt.Register(pbt.Prop[C18Name]{
 		want := java.NameUUID(append([]byte("OfflinePlayer:"), c.Name...))
 		if [16]byte(got) != want {
 			return pbt.V("c18.uuid", "offline UUID equals Java's nameUUIDFromBytes of OfflinePlayer:+name", "NameToUUID(%q)=%x, want %x", clipS(string(c.Name)), got[:], want[:])
+		}
+		if c.Between > 0 {
+			for i := 0; i < c.Between; i++ {
+				other := fmt.Sprintf("P%08x_%d", c.Salt, i)
+				g := offline.NameToUUID(other)
+				if i%97 == 0 || i == c.Between-1 {
+					if w := java.NameUUID([]byte("OfflinePlayer:" + other)); [16]byte(g) != w {
+						return pbt.V("c18.uuid.history", "for every player name the offline UUID equals Java's", "lookup #%d after %q: NameToUUID(%q)=%x, want %x", i, c.Name, other, g[:], w[:])
+					}
+				}
+			}
+			again := offline.NameToUUID(string(c.Name))
+			if [16]byte(again) != want {
+				return pbt.V("c18.uuid.history", "for every player name the offline UUID equals Java's (whatever was looked up before)",
+					"NameToUUID(%q) after %d lookups of other names = %x, want %x", c.Name, c.Between, again[:], want[:])
+			}
 		}
 		return nil
 	},
